@@ -165,6 +165,34 @@ class C05Bounded(Bounded):
                     got = "IndexError"
                 if got != [at[i]]:
                     fail("getitem", f"SigmaString({src!r})[{i}] has atoms {got}, the atom at {i} is {[at[i]]}", [src, i])
+        # length, concatenation, case mapping, equality - all on the atoms
+        short = [t for t in strings if len(t) <= 3]
+        for src in short:
+            x = SigmaString(src)
+            at = M.atoms_native(x.s)
+            ev += 1
+            if len(x) != len(at):
+                fail("len", f"len(SigmaString({src!r})) == {len(x)}, it has {len(at)} characters / wildcards", [src])
+            for f, g in ((SigmaString.upper, str.upper), (SigmaString.lower, str.lower)):
+                got = M.atoms_native(f(SigmaString(src.replace("a", "aB"))).s)
+                want = [a if not isinstance(a, tuple) else ("L", g(a[1])) for a in M.atoms_native(SigmaString(src.replace("a", "aB")).s)]
+                if got != want:
+                    fail("case", f"{f.__name__}() of SigmaString({src.replace('a', 'aB')!r}) has atoms {got} instead of {want}", [src])
+        import random as _r
+        rr = _r.Random(seed)
+        pairs = [(a, b) for a in short for b in short]
+        for a, b in (pairs if tier != "quick" else rr.sample(pairs, 6000)):
+            ev += 1
+            x, y = SigmaString(a), SigmaString(b)
+            want = M.atoms_native(x.s) + M.atoms_native(y.s)
+            got = M.atoms_native((x + y).s)
+            if got != want:
+                fail("concat", f"SigmaString({a!r}) + SigmaString({b!r}) has atoms {got} instead of {want}", [a, b])
+            if (x == y) != (M.atoms_native(x.s) == M.atoms_native(y.s)):
+                fail("eq", f"SigmaString({a!r}) == SigmaString({b!r}) is {x == y}, their atoms are {'equal' if M.atoms_native(x.s) == M.atoms_native(y.s) else 'different'}", [a, b])
+            parts = (x + y).s
+            if any(isinstance(p, str) and isinstance(q, str) for p, q in zip(parts, parts[1:])) or "" in parts:
+                fail("concat-normal-form", f"SigmaString({a!r}) + SigmaString({b!r}) has parts {parts}: adjacent or empty string parts", [a, b])
         # regular expressions: the escaped form, read back by the target (escape character + escaped sequence = that sequence), is the source
         def rx_dec(t, seqs, esc):
             out, i = "", 0
